@@ -54,8 +54,9 @@ type Prog struct {
 	FuncSeq []*ssa.Function // deterministic order
 	nameOf  map[*ssa.Function]string
 
-	unresolved []string // anchors that failed to resolve
-	modCache   *modInfo
+	unresolved  []string // anchors that failed to resolve
+	modCache    *modInfo
+	premiseBusy map[*ssa.Function]bool
 }
 
 // repoDir returns the directory of the repository under analysis.
